@@ -113,7 +113,7 @@ func c05DigestFlag(c *Ctx) {
 		return
 	}
 	n := 0
-	for _, fn := range c.Funcs {
+	for _, fn := range c.subjects() {
 		k := fnKey(fn)
 		if k == "Index.WriteTo" || strings.HasPrefix(k, "FormatDecoder.") || strings.HasPrefix(k, "FormatEncoder.") {
 			continue
@@ -361,7 +361,7 @@ func c05Deterministic(c *Ctx) {
 	c.verdict(okSort, "tar:xattr-keys-sorted", fn.Pos(), "the xattr keys are sorted before the xattr elements are encoded", "xattr elements are encoded without sorting the keys taken from the map: packing the same tree twice gives different bytes")
 	// the disk reader walks in lexical order
 	walkOK := false
-	for _, f := range c.Funcs {
+	for _, f := range c.subjects() {
 		if strings.HasPrefix(fnKey(f), "LocalFS.") && len(calls(f, named("path/filepath.Walk", "path/filepath.WalkDir"))) > 0 {
 			walkOK = true
 		}
@@ -604,7 +604,7 @@ func c05RestoreTimes(c *Ctx) {
 				}
 			}
 			exit := false
-			for _, f := range c.Funcs {
+			for _, f := range c.subjects() {
 				if strings.Contains(fnKey(f), "LeaveDir") || strings.Contains(fnKey(f), "FinishDir") || strings.Contains(fnKey(f), "CloseDir") {
 					exit = true
 				}
@@ -707,7 +707,7 @@ func c05NamesOpaque(c *Ctx) {
 	add(c.mustFn("UnTarIndex"))
 	add(c.mustFn("TarReader.Next"))
 	add(c.mustFn("LocalFS.Next"))
-	for _, fn := range c.Funcs {
+	for _, fn := range c.subjects() {
 		k := fnKey(fn)
 		if strings.HasPrefix(k, "fsBufReader.") || strings.HasPrefix(k, "LocalFS.Create") || strings.HasPrefix(k, "LocalFS.initForReading") {
 			scope = append(scope, fn)
